@@ -425,6 +425,21 @@ func checkMain(propID, tier string) int {
 	for _, k := range ks {
 		r := runKernel(l, k, tier, seed)
 		results = append(results, r)
+		if hp := os.Getenv("SYMGO_HEAPPROFILE"); hp != "" {
+			if f, err := os.Create(hp + "." + k.Name); err == nil {
+				pprof.WriteHeapProfile(f)
+				f.Close()
+			}
+		}
+		// the explorer of a finished kernel (visited set, work list, per-worker caches) is garbage now:
+		// give it back before the next kernel starts (thorough tiers run several large kernels in a row)
+		runtime.GC()
+		debug.FreeOSMemory()
+		if os.Getenv("SYMGO_MEM") != "" {
+			var ms runtime.MemStats
+			runtime.ReadMemStats(&ms)
+			fmt.Printf("... memory after %s: heap in use %d MB, sys %d MB\n", k.Name, ms.HeapInuse>>20, ms.Sys>>20)
+		}
 		fmt.Printf("[%s] %s: paths=%d states=%d instr=%d obligations=%d ends=%v queries=%d (sat %d, unsat %d, unknown %d) solver=%.1fs wall=%.1fs\n",
 			propID, k.Name, r.Paths, r.States, r.Steps, r.Obligations, r.Ends, r.Queries["total"], r.Queries["sat"], r.Queries["unsat"], r.Queries["unknown"], r.SolverTimeS, r.WallS)
 		for _, v := range r.Known {
